@@ -212,7 +212,7 @@ func TestWorker(t *testing.T) {
 	sigc := make(chan os.Signal, 1)
 	signal.Notify(sigc, syscall.SIGUSR2)
 	signal.Stop(sigc)
-	wd := 120 * time.Second
+	wd := 300 * time.Second
 	if v := os.Getenv("VERIF_WATCHDOG_S"); v != "" {
 		n, _ := strconv.Atoi(v)
 		wd = time.Duration(n) * time.Second
